@@ -1,8 +1,11 @@
+import SpecKitV.Props.ResultQueriesGen
 import SpecKitV.Lemmas.AnalyzerGlue
 import SpecKitV.Props.C13
 import SpecKitV.Props.KernelHeapGen
 import SpecKitV.Props.C13Finite
 
+#print axioms gen_compute_sanitised
+#print axioms gen_compute_assemble_eq_model
 #print axioms Model.channelOf_transpose
 #print axioms Model.sanitise_idem
 #print axioms Model.sanitise_eq_zero_fill
